@@ -361,6 +361,9 @@ void parse_itmz_token_chain(mmd_engine * e, token * chain) {
 	// Clean up token chain
 	token_tree_free(chain);
 
+	// The parser used e->root to signal success; it pointed into the chain just freed
+	e->root = NULL;
+
 	ITMZFree(pParser, free);
 }
 
